@@ -749,14 +749,25 @@ def run(chk, replay=None):
             if errn is not None or len(recs) != 1:
                 vn = 'reparse-error'
             else:
+                anon = r'^(.*\.)?[AOWP]anon\d+$'
+                if re.match(anon, e.name) and re.match(anon, recs[0].name):
+                    recs[0].name = e.name      # anonymous names are handed out by position in the netlist
                 vn = spec_verdict([rec_of_cpt(e)], recs, 'x', 'x')
             chk.count('netsubs', 'same-component' if vn == 'ok' else 'differs:' + vn)
             if vn != 'ok':
                 kp = e.keyword[0] if isinstance(e.keyword, tuple) else None
+                sargs = [str(a) for a in e.args if a is not None]
                 if kp == 0 and e.keyword[1] != '' and len(e.node_names) > 0:
                     cause = 'netsubs-keyword-position'
                 elif any(a is None for a in list(e.args)[:-1]):
                     cause = 'netsubs-drops-undefined-arg'
+                # _netsubs shares _arg_format with str(cpt): the same three value defects show up here
+                elif any(a.lower() in kw_by_type.get(e.type, ()) for a in sargs):
+                    cause = 'value-is-keyword'
+                elif any(a == '' for a in sargs):
+                    cause = 'empty-value'
+                elif any(a[:1] in ('{', '"') for a in sargs):
+                    cause = 'value-starts-with-quote'
                 else:
                     cause = 'netsubs-other'
                 state['cex'] += 1
@@ -1145,7 +1156,8 @@ def run(chk, replay=None):
         chk.case('value-print:' + vtxt, True)
         if not good:
             state['cex'] += 1
-            cause = 'eulers-number-printed-as-E' if (x.sympy.has(S.E) or x.sympy.has(S.exp)) and S.Symbol('E') in y.sympy.free_symbols else 'other'
+            cause = 'eulers-number-printed-as-E' if any(str(q) == 'E' for q in y.sympy.free_symbols) \
+                and not any(str(q) == 'E' for q in x.sympy.free_symbols) else 'other'
             chk.counterexample({'kind': 'value-print', 'cause': cause},
                                {'input': vtxt, 'lcapy': {'printed': printed, 'value': str(x.sympy), 'read_back': str(y.sympy),
                                                           'free_symbols_read_back': sorted(str(q) for q in y.sympy.free_symbols)},
@@ -1166,6 +1178,8 @@ def run(chk, replay=None):
                     raise ValueError('component count')
                 bad = None
                 for e1, e2 in pairs:
+                    if e1.classname.endswith('noise'):
+                        continue      # noise identifiers are numbered afresh by design
                     s1, s2 = real.sig(e1), real.sig(e2)
                     if not real.sig_equal(s1, s2):
                         bad = (e1.name, str(s1)[:200], str(s2)[:200], str(e1), str(e2))
@@ -1178,7 +1192,11 @@ def run(chk, replay=None):
             if bad is not None:
                 state['cex'] += 1
                 cause = 'eulers-number-printed-as-E' if ('exp(1)' in text or 'exp(-1)' in text) and 'E' in bad[4] else 'other'
-                chk.counterexample({'kind': 'rewrite-preserves', 'rewrite': rw, 'cause': cause},
+                key = {'kind': 'rewrite-preserves', 'rewrite': rw, 'cause': cause}
+                e1 = c0._elements[bad[0]]
+                if cause == 'other' and any(str(a).lower() in kw_by_type.get(e1.type, ()) for a in e1.args if a is not None):
+                    key = {'kind': 'roundtrip', 'cause': 'value-is-keyword'}      # finding C06-a reached through a rewrite
+                chk.counterexample(key,
                                    {'input': text, 'lcapy': {'component': bad[0], 'before': bad[1], 'after': bad[2],
                                                               'printed_before': bad[3], 'printed_after': bad[4]},
                                     'spec': '%s keeps the value of every component' % rw},
